@@ -3,6 +3,9 @@ package props
 import (
 	"bytes"
 	"fmt"
+	"github.com/yuin/goldmark"
+	"github.com/yuin/goldmark/parser"
+	"github.com/yuin/goldmark/text"
 	"time"
 
 	"verif/cfg"
@@ -95,6 +98,58 @@ func c01Check(c *core.Ctx, pool *cfg.Pool, spec cfg.Spec, src []byte, also bool)
 		} else if !bytes.Equal(r2.Out, res.Out) {
 			// both succeeded but disagree: reported here only as an observation, C06 decides it.
 			c.Count("convert_vs_parse_render_diff", 1)
+		}
+	}
+}
+
+var c01CtxDocs = []string{
+	"\"quoted\" 'single' it's '90s -- --- ... << >>\n\n# h {#i .c}\n\n# h\n\nx[^1] [ref] <http://a.b> www.c.d\n\n[^1]: n\n\n[ref]: /u 't'\n\n| a |\n|:-:|\n| ~~b~~ |\n\n- [x] t\n\nterm\n: def\n\n```go\ncode\n```\n\nあ\nい\\ x\n",
+	"'a\n", "\"a\n\n\"b\n", "[^1]: only a definition\n", "[^2]\n", "# same\n\n# same\n", "- \n\n  x\n", "```\nopen fence",
+}
+
+func c01Contexts(c *core.Ctx) {
+	specs := append(cfg.All(), cfg.RichSpecs()...)
+	for si, sp := range specs {
+		if !c.Mine(si) {
+			continue
+		}
+		for order := 0; order < 3; order++ {
+			var md goldmark.Markdown
+			var ctx parser.Context
+			switch order {
+			case 0: // the context exists before the instance does
+				ctx = parser.NewContext()
+				md = sp.Build()
+			case 1: // the usual order
+				md = sp.Build()
+				ctx = parser.NewContext()
+			default: // a context that has served another instance of the same configuration, and an instance built in between
+				ctx = parser.NewContext()
+				first := sp.Build()
+				_, _ = core.Try(func() { first.Parser().Parse(text.NewReader([]byte(c01CtxDocs[0])), parser.WithContext(ctx)) })
+				md = sp.Build()
+			}
+			for _, d := range c01CtxDocs {
+				src := []byte(d)
+				var err error
+				c.Begin(sp.Name(), src)
+				pv, st := core.Try(func() {
+					doc := md.Parser().Parse(text.NewReader(src), parser.WithContext(ctx))
+					var out bytes.Buffer
+					err = md.Renderer().Render(&out, src, doc)
+				})
+				c.End()
+				c.Eval()
+				c.Count("parses_with_a_caller_supplied_context", 1)
+				how := []string{"created before the instance was built", "created after the instance was built", "used before with another instance of the configuration"}[order]
+				if pv != nil {
+					c.Violation(&core.Violation{Class: "panic-parse-with-context", Locus: panicLocus(pv, st), Config: sp.Name(), Input: src,
+						Detail: fmt.Sprintf("Parse(..., parser.WithContext(ctx)) with a context %s: panic: %v\n%s", how, pv, st)})
+					break
+				} else if err != nil {
+					c.Violation(&core.Violation{Class: "error-with-good-writer", Locus: "parse-with-context", Config: sp.Name(), Input: src, Detail: err.Error()})
+				}
+			}
 		}
 	}
 }
@@ -255,6 +310,11 @@ func runC01(c *core.Ctx) {
 			c.Sample(map[string]any{"kind": "mixed", "input": q(src)})
 		}
 	}
+
+	// 3b. a parser.Context of the caller's (parser.WithContext): created BEFORE the instance that uses it is built, created
+	// after, and used for several documents in a row. Parse with a context the caller made at any earlier time is ordinary
+	// API use; it must be as total as Convert.
+	c01Contexts(c)
 
 	// 4. deep / pathological families
 	sizes := []int{10, 100, 1000, 5000}
